@@ -297,7 +297,9 @@ def _s1_use_and_produce(program, res):
                                                        and a.stmt.targets[0].id == c for a in g.stmt_nodes(("stmt",))):
                             acc = c
     if acc is None:
-        raise AnalysisError("parse_assignments_in_context: accumulator of used columns not found")
+        # the raising guard itself is gone: that is reported by the obligation table (row use-and-produce); nothing to fold here
+        res.abstain("C26-S1", "parse_assignments_in_context: accumulator of used columns", "no raise guarded by an intersection of used and produced columns")
+        return
     updates = [n for n in g.stmt_nodes(("stmt",)) if isinstance(n.stmt, ast.Assign) and isinstance(n.stmt.targets[0], ast.Name)
                and n.stmt.targets[0].id == acc and any(isinstance(b.stmt, ast.For) for b, _l in g.lexical_guards(n))]
     if not updates:
